@@ -28,6 +28,7 @@ let run k line =
   let i j = int_of_string (a j) in
   let out = match t.(0) with
     | "model_type" -> res (P.model_type_from_string (coq_string_of (unq (a 1))))
+    | "model_type_cstr" -> res (P.model_type_from_string (coq_string_of (if a 1 = "<null>" then "" else unq (a 1))))
     | "weather_type" -> res (P.weather_type_from_string (coq_string_of (unq (a 1))))
     | "treatment_app" -> res (P.treatment_app_from_string (coq_string_of (unq (a 1))))
     | "arrival_behavior" -> res (P.set_arrival_behavior (coq_string_of (unq (a 1))))
